@@ -57,8 +57,9 @@ func corpusCases(seeds []int64, passes []int) []fw.Case {
 	var cases []fw.Case
 	for _, k := range names {
 		text := corpus[k]
+		// (a program that prints the wall clock differs from its own variants whenever a minute passes between the runs)
 		skip := false
-		for _, tok := range []string{"time.sleep", "spawn ", "sleep(", "net.", "http"} {
+		for _, tok := range []string{"time.sleep", "time.now", "spawn ", "sleep(", "net.", "http"} {
 			if strings.Contains(text, tok) {
 				skip = true
 			}
